@@ -289,6 +289,10 @@ func main() {
 		fmt.Fprintln(os.Stderr, "extract:", err)
 		os.Exit(2)
 	}
+	if err := writeIfChanged(filepath.Join(*out, "Getters.lean"), []byte(genGetters(root))); err != nil {
+		fmt.Fprintln(os.Stderr, "extract:", err)
+		os.Exit(2)
+	}
 }
 
 func genFuncs(root, enc *pkgInfo) string {
